@@ -13,8 +13,8 @@ theorem roundtrip_request (P : Proto) (hP : P ≠ .v1) (m : Str) (args rid : J)
       ∧ payloadToItem P p = .ok (.request m args, rid) := by
   cases P <;> simp at hP <;> refine ⟨_, rfl, ?_⟩ <;>
   (rcases args with _ | _ | _ | _ | _ | xs | kvs <;> simp [Args, J.isList, J.isDict] at hargs
-   · cases xs <;> cases rid <;> simp [ReqId, J.isNumber, J.isStr] at hrid <;> codec_simp []
-   · cases kvs <;> cases rid <;> simp [ReqId, J.isNumber, J.isStr] at hrid <;> codec_simp [])
+   · cases xs <;> cases rid <;> simp [ReqId, isJsonNumber, J.isStr] at hrid <;> codec_simp []
+   · cases kvs <;> cases rid <;> simp [ReqId, isJsonNumber, J.isStr] at hrid <;> codec_simp [])
 
 example : ∃ p, requestPayload .v2 (lit "m") (.arr []) (.int 7) = .ok p
     ∧ payloadToItem .v2 p = .ok (.request (lit "m") (.arr []) , .int 7) :=
@@ -34,14 +34,14 @@ theorem roundtrip_notification (P : Proto) (hP : P ≠ .v1) (m : Str) (args : J)
 theorem roundtrip_result (P : Proto) (hP : P ≠ .v1) (v rid : J) (hrid : RespId rid) :
     payloadToItem P (responsePayload P v rid) = .ok (.response (.result v), rid) := by
   cases P <;> simp at hP <;> cases rid <;>
-    simp [RespId, J.isNumber, J.isStr, J.isNone] at hrid <;> codec_simp []
+    simp [RespId, isJsonNumber, J.isStr, J.isNone] at hrid <;> codec_simp []
 
 /-- an error with an `int` code (a `bool` is an `int` to Python) and a string message -/
 theorem roundtrip_error (P : Proto) (hP : P ≠ .v1) (code : J) (msg : Str) (rid : J)
     (hcode : code.isInt = true) (hrid : RespId rid) :
     payloadToItem P (errorPayload P code (.str msg) rid) = .ok (.response (.rpcError code msg), rid) := by
   cases P <;> simp at hP <;> cases rid <;>
-    simp [RespId, J.isNumber, J.isStr, J.isNone] at hrid <;>
+    simp [RespId, isJsonNumber, J.isStr, J.isNone] at hrid <;>
     cases code <;> simp [J.isInt] at hcode <;> codec_simp []
 
 /-- 1.0: positional arguments, **any** non-null JSON value as id -/
